@@ -11,6 +11,8 @@
 import LiteFSVerif.Proofs.Image
 import LiteFSVerif.Proofs.Engine
 import LiteFSVerif.Proofs.Log
+import LiteFSVerif.Gen.Skel
+import LiteFSVerif.Model.ExpectedSkel
 
 set_option linter.unusedSimpArgs false
 
@@ -228,5 +230,13 @@ theorem C09_inv_newest_is_position (s : Eng) (hinv : LogInv s) (f : LTXFile) (h 
 /-! ### non-vacuity -/
 example : chainOK [⟨1, 1, 0, 5, 1, []⟩, ⟨2, 2, 5, 7, 1, []⟩, ⟨3, 4, 7, 9, 2, []⟩] = true := by decide
 example : chainOK [⟨1, 1, 0, 5, 1, []⟩, ⟨3, 3, 5, 7, 1, []⟩] = false := by decide
+
+/-- the control skeletons (branch conditions, loop heads, returns, order of calls and of state
+    assignments) of `DB.EnforceRetention`, regenerated from the current source on every run, are the ones the
+    model was written and validated against (Model/ExpectedSkel.lean): a reordered, dropped or
+    altered check or call in these functions breaks this theorem -/
+theorem C09_source_skeletons :
+    Gen.Skel.DB_EnforceRetention = Expected.Skel.DB_EnforceRetention :=
+  rfl
 
 end LiteFSVerif.C09
